@@ -32,9 +32,13 @@ class SimInput(object):
         self.returned = 0
         self.limit = limit                    # declared Content-Length (None: not checked)
         self.overasked = None                 # first sized call asking beyond the limit
+        self.raise_at_call = None             # index of the read call that fails with an I/O error
 
     # -- helpers ---------------------------------------------------------------
     def _note(self, what, size):
+        if self.raise_at_call is not None and len(self.calls) == self.raise_at_call:
+            self.calls.append((what + '!', size))
+            raise TimeoutError('timed out reading the request body')
         self.calls.append((what, size))
         if len(self.calls) > self.max_calls:
             from .simloop import SimBudgetExceeded
